@@ -112,6 +112,21 @@ func LoadProg(dir string, patterns []string, want []string, env []string) (*Prog
 	return p, nil
 }
 
+var refProg *Prog
+
+// LoadRef loads the reference package shipped with the checker.
+func LoadRef() (*Prog, error) {
+	if refProg != nil {
+		return refProg, nil
+	}
+	p, err := LoadProg(verifDir()+"/checker", []string{"./ref"}, []string{"verif/checker/ref"}, nil)
+	if err != nil {
+		return nil, err
+	}
+	refProg = p
+	return p, nil
+}
+
 func (p *Prog) CallGraph() *callgraph.Graph {
 	if p.cg == nil {
 		p.cg = vta.CallGraph(ssautil.AllFunctions(p.SSA), cha.CallGraph(p.SSA))
